@@ -1258,3 +1258,17 @@ dtwin('c17-setbounds-validates-then-commits', '*', 'seeded/twins/setbounds-valid
 dtwin('c20-density-validation-accepts-numpy-integers', '*', 'seeded/twins/density-validation-accepts-numpy-integers.diff',
       why='the constructor validates the density (integral floats converted, non-integers / non-positive values replaced '
           'by the default) and its type test lets numpy integers through (R20.7)')
+dnoalarm('c04-second-evaluator-at-item-point', 'C04', 'seeded/twins/startpoint-trial-evaluated-at-item-point.diff',
+         why='a second routine evaluates the objective, at the point of the item whose holder it fills: R04.4 holds; '
+             'the remaining rules are undecided with two evaluators (exit 2), never a violation')
+dtwin('c15-hill-optional-holder', '*', 'seeded/twins/hill-calculate-optional-holder.diff',
+      why='the value holder of Hill.Calculate is optional; a supplied holder is still filled and returned (R15.3)')
+fire('c15-hill-accumulates-into-holder', 'C15', 'iOpt/problems/hill.py', 'Hill.Calculate', '        functionValue.value = res\n',
+     '        functionValue.value = functionValue.value + res\n', 'R15.3')
+fire('c18-hill-accumulates-into-holder', 'C18', 'iOpt/problems/hill.py', 'Hill.Calculate', '        functionValue.value = res\n',
+     '        functionValue.value = functionValue.value + res\n', 'R15.3')
+fire('c02-holder-exponent-other-dimension', 'C02', M, 'Method.__init__',
+     'self.dimension = task.problem.numberOfFloatVariables', 'self.dimension = task.problem.numberOfFloatVariables + 1', 'R06.4')
+fire('c09-setbounds-keeps-caller-arrays', 'C09', EV, 'Evolvent.SetBounds',
+     'self.lowerBoundOfFloatVariables = np.copy(lowerBoundOfFloatVariables)',
+     'self.lowerBoundOfFloatVariables = np.asarray(lowerBoundOfFloatVariables)', 'R09.8')
